@@ -445,6 +445,16 @@ class Program:
             raise AnalysisError(f"anchor-missing: method {cls_name}.{meth}")
         return f
 
+    def concrete_method(self, c: "ClassInfo", meth: str) -> Optional[FuncInfo]:
+        """The method as it runs on an instance of the concrete class c: looked up through the MRO and, when it is a template
+        method (it calls private helpers / reads private properties that c or a base re-defines), with those resolved for c and
+        inlined."""
+        f = c.lookup(meth)
+        if f is None:
+            return None
+        inl = getattr(self, "inliner", None)
+        return inl.specialise(f, c) if inl is not None else f
+
     def func(self, relpath: str, name: str, required=True) -> Optional[FuncInfo]:
         m = self.by_relpath.get(relpath)
         if m is None:
